@@ -2,11 +2,16 @@ package main
 
 func init() {
 	extractors = append(extractors, func() {
-		g := newGen("C19", "pkg/unixsocket/socket_linux.go")
+		g := newGen("C19", "pkg/unixsocket/socket_linux.go", "container/socket_linux.go")
 		g.p("open GoSandbox.GoLite\n\n")
 		f := parseFile("pkg/unixsocket/socket_linux.go")
 		emitFunc(g, "recvMsg", findFunc(f, "Socket", "RecvMsg"))
 		emitFunc(g, "parseMsg", findFunc(f, "", "parseMsg"))
 		emitFunc(g, "sendMsg", findFunc(f, "Socket", "SendMsg"))
+		// the gob-framed layer of package container
+		c := parseFile("container/socket_linux.go")
+		emitFunc(g, "gobSendMsg", findFunc(c, "socket", "SendMsg"))
+		emitFunc(g, "gobRecvMsg", findFunc(c, "socket", "RecvMsg"))
+		emitFunc(g, "gobNewSocket", findFunc(c, "", "newSocket"))
 	})
 }
